@@ -300,7 +300,7 @@ static void on_abort(int) {
 /// on a prepared set of drivers (one per layout, [0] = undivided)
 static void check_input(std::vector< std::unique_ptr< StepDriver > > &drivers, const Hydro &hydro, const Case &base,
                         const uint64_t ordinal, const long seedrot, const bool fresh_check, const bool verbose,
-                        Stats &S) {
+                        const bool thorough, Stats &S) {
   const std::string cells = pattern_cells(base.pat);
   const std::vector< Prim > prims = pattern_prims(cells, base.perturb);
   const Geometry &g0 = drivers[0]->geo;
@@ -374,7 +374,7 @@ static void check_input(std::vector< std::unique_ptr< StepDriver > > &drivers, c
   for (size_t il = 0; il < drivers.size(); ++il) {
     StepDriver &drv = *drivers[il];
     // every order policy; the scramble policy with two different sequences
-    const int norder = ORDER_NUMBER + 1;
+    const int norder = thorough ? ORDER_NUMBER + 1 : ORDER_NUMBER;
     std::vector< double > sfifo;
     for (int io = 0; io < norder; ++io) {
       Case c = base;
@@ -411,7 +411,7 @@ static void check_input(std::vector< std::unique_ptr< StepDriver > > &drivers, c
         printf("layout %dx%dx%d order %-8s seed %-6" PRIu64 ": max difference/tolerance vs undivided %.3g\n",
                drv.geo.nsub[0], drv.geo.nsub[1], drv.geo.nsub[2], order_name(c.order), c.seed, r1);
       // the same order twice: bit for bit
-      if (io == 0 || io == ORDER_SCRAMBLE) {
+      if (io == 0 || (thorough && io == ORDER_SCRAMBLE)) {
         run(drv, c, s2);
         ++S.bitwise_repeats;
         if (!bitwise_equal(s, s2))
@@ -472,7 +472,7 @@ static int replay(const Args &A, Result &R) {
     drivers.emplace_back(new StepDriver(g));
   }
   Stats S;
-  check_input(drivers, *hydro, c, 0, 0, true, true, S);
+  check_input(drivers, *hydro, c, 0, 0, true, true, true, S);
   R.evaluations = S.steps;
   R.nontrivial = S.nontrivial;
   for (auto &kv : S.violations) {
@@ -501,8 +501,8 @@ int main(int argc, char **argv) {
       for (int m = 0; m < NMASK; ++m) {
         if (a == b && m > 0)
           continue; // uniform state once
-        if (!thorough && a != b && m % 2 == 0)
-          continue; // quick tier: every second mask
+        if (!thorough && a != b && m % 3 != 1)
+          continue; // quick tier: every third mask (1, 4, 7, 10, 13, 16)
         patterns.push_back({a, b, m});
       }
   for (int p = 0; p < 6; ++p)
@@ -586,7 +586,7 @@ int main(int argc, char **argv) {
           c.seed = 0;
           // the newly-built-grid comparison once per work item and gamma
           const bool fresh = (ipat == it.first && idt == 0);
-          check_input(drivers, *hydros[ig], c, ord, A.seed, fresh, false, S);
+          check_input(drivers, *hydros[ig], c, ord, A.seed, fresh, false, thorough, S);
         }
     item_done[ii] = 1;
   }
